@@ -490,8 +490,44 @@ func c08DecodeOne(r *vfRun) {
 		r.fail(cls, ep, "%s; input % x (mutation %+v)", m, vfHead(body), f)
 		return
 	}
+	// the filexfer packets that keep their Data slice for reuse: decoding one body after another into the same packet
+	// must give what decoding into a fresh one gives (lengths that shrink and grow within the old capacity)
+	if m := c08Reuse(sc.Seed); m != "" {
+		r.fail("C08/short-packet-delivered", "reuse", "%s", m)
+		return
+	}
 	r.sim.count("probe.decode_cases")
 	r.res.NonTrivial = true
+}
+
+func c08Reuse(seed uint64) (msg string) {
+	defer func() {
+		if x := recover(); x != nil {
+			msg = fmt.Sprintf("decoding into a reused packet panicked: %v", x)
+		}
+	}()
+	var dp sshfx.DataPacket
+	var wp sshfx.WritePacket
+	for k := 0; k < 4; k++ {
+		n := int(vfMix(seed, uint64(k)) % 120)
+		if k == 1 {
+			n = n % 12 // a short one after a long one ...
+		}
+		data := vfFill(seed^uint64(k), 0, n)
+		body := binary.BigEndian.AppendUint32(nil, uint32(n))
+		body = append(body, data...)
+		if err := dp.UnmarshalPacketBody(sshfx.NewBuffer(append([]byte(nil), body...))); err != nil || string(dp.Data) != string(data) {
+			return fmt.Sprintf("DataPacket decoded into a reused packet (decode number %d, %d bytes): got %d bytes % x, err %v; the body holds % x", k, n, len(dp.Data), vfHead(dp.Data), err, vfHead(data))
+		}
+		wbody := binary.BigEndian.AppendUint32(nil, 1)
+		wbody = append(wbody, 'h')
+		wbody = binary.BigEndian.AppendUint64(wbody, uint64(k))
+		wbody = append(wbody, body...)
+		if err := wp.UnmarshalPacketBody(sshfx.NewBuffer(wbody)); err != nil || string(wp.Data) != string(data) || wp.Handle != "h" || wp.Offset != uint64(k) {
+			return fmt.Sprintf("WritePacket decoded into a reused packet (decode number %d, %d bytes): got %d bytes, handle %q offset %d, err %v", k, n, len(wp.Data), wp.Handle, wp.Offset, err)
+		}
+	}
+	return ""
 }
 
 func containsPanic(s string) bool {
